@@ -19,7 +19,7 @@ func init() {
 	probeNames["C18"] = []string{"open_ok", "open_locked_rejected", "open_invalid_options", "open_damaged_headers", "open_truncated_file", "open_init_write_fault", "open_read_fault", "open_updmaxsize_fault", "close", "wait_lock", "two_waiters", "two_waiters_failing_first", "open_left_by_panic"}
 	register(&PropDef{
 		ID: "C18", Level: "exploration", QuickSec: 40, ThoroSec: 600,
-		Rule: "each run = one seeded sequence (10-40 steps) of open / failing open / close on ONE path with two handles, on the real file system with the real flock: failing opens are produced by invalid options (rejected before the file is touched), both headers damaged, file truncated below the header size, an injected WriteAt failure during file initialisation, an injected ReadAt failure while reading the headers, and an injected WriteAt failure inside the FlagUpdMaxSize maintenance transaction (all of these fail AFTER the path lock was taken). One-bit lock model: Open succeeds iff the model says the path is free; while a handle is open every other Open without the wait flag fails with an error of kind LockFailed; after every Close and after every failed Open an immediate Open succeeds (never LockFailed); with FlagWaitLock a second goroutine's Open returns only after the holder's Close was invoked (ordered by event sequence numbers). Non-trivial = sequence containing at least one failing open that failed after taking the lock; distinct = hash of the step sequence.",
+		Rule: "each run = one seeded sequence (10-40 steps) of open / failing open / close on ONE path with two handles, on the real file system with the real flock: failing opens are produced by invalid options (rejected before the file is touched), both headers damaged, file truncated below the header size, an injected WriteAt failure during file initialisation, an injected ReadAt failure while reading the headers, and an injected WriteAt failure inside the FlagUpdMaxSize maintenance transaction (all of these fail AFTER the path lock was taken). One-bit lock model: Open succeeds iff the model says the path is free; while a handle is open every other Open without the wait flag fails with an error of kind LockFailed; after every Close and after every failed Open an immediate Open succeeds (never LockFailed); with FlagWaitLock a second goroutine's Open returns only after the holder's Close was invoked (ordered by event sequence numbers); with two waiting Opens of which the first to get the lock fails after locking, the other one gets the lock and a third plain Open fails with LockFailed; an Open that is left by a panic of the application Observer (OnOpen) releases the lock as well. Non-trivial = sequence containing at least one failing open that failed after taking the lock; distinct = hash of the step sequence.",
 		Real: append(append([]string{}, defaultReal...), "internal/vfs/osfs (real os file, real flock on <path>.lock, real mmap)"),
 		Stub: []string{"nothing is stubbed; I/O failures during Open are injected through the verif-tagged WriteAt/ReadAt shadow methods of osfs.File"},
 		Assume: []string{"flock excludes two open file descriptions in one process like it excludes two processes", "the temp directory is on a local file system supporting flock and mmap"},
